@@ -125,6 +125,17 @@ func (p *c19) history(i int) c19history {
 	h.files["includes-dir"] = "a {% include 'subdir' %} b"
 	h.files["includes-empty"] = "a {% include undefinedname %} b"
 	h.files["extends-dir"] = "{% extends 'subdir' %}"
+	// files of unusual sizes: empty, a page and a byte, beyond a megabyte, beyond any sensible template (the large
+	// ones in every 32nd history only: the collector is off while a history runs)
+	h.files["size-0"] = ""
+	h.files["size-4097"] = strings.Repeat("p", 4096) + "\n"
+	sized := []string{"size-0", "size-4097"}
+	if i%32 == 3 {
+		h.files["size-1M"] = strings.Repeat("0123456789abcde\n", 1<<16) + "{{ 1 }}"
+		h.files["size-9M"] = strings.Repeat("0123456789abcde\n", 9<<16) + "{{ 2 }}"
+		h.files["includes-9M"] = "a {% include 'size-9M' %} b"
+		sized = append(sized, "size-1M", "size-9M", "includes-9M")
+	}
 	names := []string{"main", "part1", "part2", "layout", "macros", "base0", "broken-lex", "broken-parse", "includes-broken", "extends-broken", "imports-broken", "runtime-fail", "many", "no-such-template", "subdir", "", "includes-dir", "includes-empty", "extends-dir", "subdir/inner"}
 	n := 1 + r.Intn(p.pick(50, 200))
 	for k := 0; k < n; k++ {
@@ -137,6 +148,11 @@ func (p *c19) history(i int) c19history {
 			}
 		}
 		h.calls = append(h.calls, c)
+	}
+	for k, name := range sized {
+		for _, ld := range []string{"fs", "memory"} {
+			h.calls = append(h.calls, c19call{loader: ld, kind: "sized-file", name: name, parse: (k+i)%2 == 0, twig: false})
+		}
 	}
 	return h
 }
